@@ -8,9 +8,131 @@
 """
 from __future__ import annotations
 
+from ..absint import PyRaise
 from .. import markexplore as mx
 from .. import markprops  # noqa: F401  (registers judges)
 from ..rules_markers import of_exit_shapes, flatten_classes
+
+
+def _texts_work(task):
+    src, texts = task
+    dom = mx.domain(src)
+    fails, n = [], 0
+    for text in texts:
+        try:
+            m = dom.parse(text, budget=mx.STEP_BUDGET)
+        except PyRaise:
+            continue
+        except Exception as e:
+            if "step budget" in str(e):
+                continue
+            raise
+        n += 1
+        why = dom.normal_form(m)
+        if why:
+            fails.append(("R15.5", dom.blame("dep_logic.markers:_build_markers"), f"parse_marker({text!r}) -> {dom.show(m)} is not in normal form: {why}",
+                          {"text": text, "path": dom.path()}))
+    return {"fails": fails, "n": n}
+
+
+def _of_work(task):
+    """R15.6: the public classmethods MultiMarker.of / MarkerUnion.of on compounds sharing a child."""
+    src, triples = task
+    dom = mx.domain(src)
+    it = dom.it
+    fails, n = [], 0
+    from ..absint import Bound
+    for kx, ky, kz in triples:
+        x, y, z = mx.rebuild(dom, kx), mx.rebuild(dom, ky), mx.rebuild(dom, kz)
+        for outer, inner in ((dom.MM, dom.MU), (dom.MU, dom.MM)):
+            try:
+                c = it.construct(inner, [x, y], {})
+                d = it.construct(inner, [x, z], {})
+                f, _ = outer.lookup("of")
+                it.trace.clear()
+                it.steps = 0
+                it.max_steps = mx.STEP_BUDGET
+                r = it.call(Bound(f, outer), [c, d], {})
+            except PyRaise:
+                continue
+            except Exception as e:
+                if "step budget" in str(e):
+                    continue
+                raise
+            finally:
+                it.max_steps = None
+            n += 1
+            why = dom.normal_form(r)
+            if why:
+                fails.append(("R15.6", dom.blame(f"{outer.module.name}:{outer.name}.of"),
+                              f"{outer.name}.of({dom.show(c)}, {dom.show(d)}) -> {dom.show(r)} is not in normal form: {why}", {"path": dom.path()}))
+    return {"fails": fails, "n": n}
+
+
+def of_classmethods(chk):
+    import random
+    from ..specalg import parallel
+    dom = mx.domain(str(chk.src))
+    atoms = [dom.key(a) for _, a in mx.build_atoms(dom, chk.tier)]
+    by_var = {}
+    for k in atoms:
+        by_var.setdefault(k[1], []).append(k)
+    fam = []
+    for var, ys in by_var.items():
+        xs = [k for k in atoms if k[1] != var and not (k[1].startswith("python") and var.startswith("python"))]
+        for y in ys:
+            for z in ys:
+                if y != z:
+                    for x in xs:
+                        fam.append((x, y, z))
+    rnd = random.Random(chk.seed + 1)
+    rnd.shuffle(fam)
+    fam = fam[: (800 if chk.tier == "quick" else 10000)]
+    src = str(chk.src)
+    per = max(1, (len(fam) + chk.jobs * 3 - 1) // (chk.jobs * 3))
+    total = 0
+    for r in parallel(_of_work, [(src, fam[i:i + per]) for i in range(0, len(fam), per)], chk.jobs):
+        total += r["n"]
+        for f in r["fails"]:
+            chk.fail(*f)
+    return total
+
+
+def parsed_texts(chk):
+    import random
+    from ..specalg import parallel
+    from .c03 import atom_texts
+    atoms = [t for t in atom_texts() if not any(f'" {o} ' in t for o in ("in", "not in", "~="))]   # no-converse literal-left atoms: see C03/C13 findings
+    rnd = random.Random(chk.seed)
+    texts = []
+    by_var = {}
+    for t in atoms:
+        var = next(v for v in ("os_name", "sys_platform", "extra", "python_version", "python_full_version") if v in t)
+        by_var.setdefault(var, []).append(t)
+    fam = []
+    for var, ys in by_var.items():
+        xs = [t for t in atoms if var not in t and not (var.startswith("python") and "python" in t)]
+        for y in ys:
+            for z in ys:
+                if y != z:
+                    for x in xs:
+                        fam.append((x, y, z))
+    rnd.shuffle(fam)
+    for x, y, z in fam[: (600 if chk.tier == "quick" else 6000)]:
+        texts.append(f"{x} and {y} or {x} and {z}")
+        texts.append(f"({x} or {y}) and ({x} or {z})")
+    for _ in range(300 if chk.tier == "quick" else 3000):
+        a, b, c = rnd.sample(atoms, 3)
+        texts.append(f"{a} and {b} or {c}")
+        texts.append(f"{a} or {b} and {c} or {a}")
+    src = str(chk.src)
+    per = max(1, (len(texts) + chk.jobs * 3 - 1) // (chk.jobs * 3))
+    total = 0
+    for r in parallel(_texts_work, [(src, texts[i:i + per]) for i in range(0, len(texts), per)], chk.jobs):
+        total += r["n"]
+        for f in r["fails"]:
+            chk.fail(*f)
+    return total
 
 
 def run(chk):
@@ -35,6 +157,11 @@ def run(chk):
     chk.discharged += good
     chk.evaluations += good
     chk.nontrivial.update(("R15", i) for i in range(stats["nontrivial"] + u["nontriv"]))
+    # R15.5 on generated TEXTS (the parser calls MarkerUnion.of directly, a path `|` does not take)
+    n_texts = parsed_texts(chk)
+    chk.rules["R15.5"]["instances"] += n_texts
+    chk.rule("R15.6", "MultiMarker.of / MarkerUnion.of on compounds sharing a child return normal forms")
+    chk.rules["R15.6"]["instances"] += of_classmethods(chk)
     of_exit_shapes(chk, "R15.2")
     flatten_classes(chk, "R15.3")
     stats.update({"phaseU_markers": len(keys), "phaseU_calls": u["n"], "distinct_level1_results": ndistinct})
